@@ -569,7 +569,7 @@ IsPlainK(v) ==
     CASE v.t \in {"none", "bool", "int", "float", "fspec", "str", "enc", "digest"} -> TRUE
       [] v.t = "list" -> \A i \in DOMAIN v.l : IsPlainK(v.l[i])
       [] v.t = "dict" -> \A i \in DOMAIN v.kv :
-                            v.kv[i][1].t \in {"str", "int", "float", "bool"} /\ IsPlainK(v.kv[i][2])
+                            v.kv[i][1].t \in {"str", "int", "float", "fspec", "bool", "none"} /\ IsPlainK(v.kv[i][2])
       [] OTHER -> FALSE
 \* C02 names the one normalisation: an unset typed list or dict may come back empty
 EmptyFor(f, n, dv) == /\ IsNone(n) /\ ~Untyped(f)
